@@ -181,6 +181,16 @@ pub fn translate_fn(reg: &Registry, spec: FnSpec) -> FnOut {
             },
         }
     }
+    let gtext = tok(&spec.sig.generics)
+        + &spec.sig.generics.where_clause.as_ref().map(|w| tok(w)).unwrap_or_default();
+    if gtext.contains("TransposeMatrix") {
+        implicit.push("{RM : Type}".to_string());
+        dict_params.push("(RT : TransposeMatrix T RM)".to_string());
+        ctx.has_rt = true;
+    }
+    if tok(spec.block).replace(' ', "").contains("transmute::<&[T],") {
+        ctx.view_calls = true;
+    }
     // parameters
     let mut params: Vec<String> = vec![];
     let mut mut_tys: Vec<Ty> = vec![];
@@ -229,6 +239,37 @@ pub fn translate_fn(reg: &Registry, spec: FnSpec) -> FnOut {
     let closure_decls: Vec<String> =
         closure_params.iter().map(|n| closure_param_decl(n, reg, &ctx)).collect();
 
+    // element-type-specific routines reached through a transmuted view: explicit parameters
+    let mut ext_decls: Vec<String> = vec![];
+    for n in &ctx.ext_calls {
+        if let Some(sig) = reg.fns.get(n) {
+            let mut s = format!("(ext_{n} : ");
+            let mut outs = vec![];
+            for (_, t) in &sig.params {
+                match t {
+                    Ty::Slice(_) => s.push_str("Slice T → "),
+                    Ty::MutSlice(_) => {
+                        s.push_str("Slice T → ");
+                        outs.push("(Slice T)".to_string());
+                    },
+                    o => s.push_str(&format!("{} → ", o.lean())),
+                }
+            }
+            let mut parts = vec![];
+            if sig.ret != Ty::Unit {
+                parts.push(sig.ret.lean());
+            }
+            parts.extend(outs);
+            let r = match parts.len() {
+                0 => "Unit".to_string(),
+                1 => parts[0].clone(),
+                _ => format!("({})", parts.join(" × ")),
+            };
+            s.push_str(&format!("Exec {r})"));
+            ext_decls.push(s);
+        }
+    }
+    dict_params.extend(ext_decls);
     let mut header = String::new();
     if !spec.doc.is_empty() {
         header.push_str(&format!("/-- {} -/\n", spec.doc));
